@@ -81,24 +81,33 @@ class Gen:
             [14, 6, 9, 12, 6, 9, 5, 5, 3, 6, 8, 3, 3, 4, 2, 2, 6, 4])[0]
         return getattr(self, "e_" + form)(d + 1)
 
+    SPECS = [">3", "<4", "03", ".1f", "x", "^5", "d", "q", ">8", "6", "*^7", ".2"]
+
     def e_fstring(self, d):
-        """f-string: literal text and replacement fields; the formatted value is a receiver (format() is asked of it);
-        a conversion (!r / !s) only without a format spec (formatting the converted str is str's own business)"""
+        """f-string: literal text and replacement fields; the formatted value is a receiver (format() is asked of it).
+        Fields come with every combination of conversion (!r !s !a) x format spec (none, literal, nested {expr}): the
+        conversion is applied first and the *string* is then formatted with the spec."""
         parts = []
         for _ in range(self.rng.choice([1, 1, 2, 3])):
-            if self.rng.random() < 0.35:
+            if self.rng.random() < 0.3:
                 parts.append(self.rng.choice(["a", "<", " ", "x=", "%", "{{", "}}"]))
                 continue
-            val = self.as_r(self.expr(d + 1))
+            r = self.rng.random()
+            if r < 0.5:
+                val = self.wrap(self.lit(self.rng.choice(["str", "none", "int", "float", "list", "bool", "dict", "tuple"])))
+            else:
+                val = self.as_r(self.expr(d + 1))
+            conv = self.rng.choice(["", "", "!r", "!s", "!r", "!s", "!a"])
             r = self.rng.random()
             if r < 0.35:
-                parts.append("{" + val + self.rng.choice(["!r", "!s"]) + "}")
-            elif r < 0.6:
-                parts.append("{" + val + "}")
-            elif r < 0.85:
-                parts.append("{" + val + ":" + self.rng.choice([">3", "<4", "03", ".1f", "x", "^5", "d", "q"]) + "}")
+                spec = ""
+            elif r < 0.8:
+                spec = ":" + self.rng.choice(self.SPECS)
+            elif r < 0.9:
+                spec = ":{" + self.wrap(self.rng.choice(["3", "'>6'", "2", "'x'"])) + "}"
             else:
-                parts.append("{" + val + ":{" + self.as_r(self.expr(d + 2)) + "}}")
+                spec = ":" + self.rng.choice([">", "<", "^", ""]) + "{" + self.as_r(self.expr(d + 2)) + "}"
+            parts.append("{" + val + conv + spec + "}")
         return "f'" + "".join(parts) + "'", "N"
 
     def e_tracer(self, d):
@@ -494,6 +503,10 @@ def table_cases():
                       "seed": 0, "table": f"slice {a}"})
         cases.append({"src": f"x = f'{{t(1, {first[a]})}}|{{t(2, {first[a]})!r}}|{{t(3, {first[a]})!s}}|{{t(4, {first[a]}):>4}}|{{t(5, {first[a]}):{{t(6, 3)}}}}'",
                       "init": {}, "mode": "native", "seed": 0, "table": f"fstring {a}"})
+        for conv in ("!r", "!s", "!a"):
+            cases.append({"src": f"x = f'{{t(1, {first[a]}){conv}:>8}}'\ny = f'{{t(2, {first[a]}){conv}:{{t(3, 6)}}}}|{{t(4, {first[a]}){conv}:<{{t(5, 4)}}}}'\n"
+                                 f"z = f'{{t(6, {first[a]}){conv}:d}}'",
+                          "init": {}, "mode": "native", "seed": 0, "table": f"fconvspec {conv} {a}"})
         cases.append({"src": f"x, y = t(1, {first[a]})\n", "init": {}, "mode": "native", "seed": 0, "table": f"unpack2 {a}"})
         cases.append({"src": f"x, *y = t(1, {first[a]})\n", "init": {}, "mode": "native", "seed": 0, "table": f"unpack* {a}"})
         cases.append({"src": f"x = [*t(1, {first[a]}), t(2, 1)]\ny = f(*t(3, {first[a]}))", "init": {"f": "<callable>"}, "mode": "native",
